@@ -3,6 +3,7 @@ import pyparsing as pp
 from .common import _
 from .common import _c
 from .common import c
+from .common import end
 from .common import n
 from .generic import name
 from pydbml.parser.blueprints import ReferenceBlueprint
@@ -191,4 +192,4 @@ def parse_ref(s, loc, tok):
 ref_short.set_parse_action(parse_ref)
 ref_long.set_parse_action(parse_ref)
 
-ref = ref_short | ref_long + (n | pp.StringEnd())
+ref = ref_short | ref_long + end
